@@ -25,6 +25,8 @@ WHAT = {
  'ExcludedTypeLoadError stored': ("C05", "ExcludedTypeLoadError.input_value held the excluded type and excluded_type the datum: the offending value of a str/Mapping given to an iterable/tuple/list-layout loader was not reported (C05 model_kinds_as_list_forbid rk=3; l2 root errors)"),
  'by origin only': ("C14", "List[int] -> Optional[List[str]] accepted and passed as is (UnionSubcaseCoercerProvider compared origins only) (refusal_table; sound_List_int di=5)"),
  'Optional of its first member': ("C14", "Union[int, str, None] -> Optional[int] accepted: a str lands in an Optional[int] field (sound_U_int_str_none sel=2)"),
+ 'generic NamedTuple': ("C16", "class NT(NamedTuple, Generic[T]): NT[int] handled by the iterable provider: {'x': 1, 'y': [1]} rejected, [1, [2]] -> bare TypeError (case_NT_int)"),
+ 'name sanitizer kept': ("C19", "model named 'A\u00b2' / 'A\u2460' -> SyntaxError in the generated loader; 'A\u00aa' -> NameError in the generated converter (names_build; K-name/1 sanitizer_alphabet)"),
 }
 WHAT.update(json.load(open('/verif/tools/fixed_extra.json')) if __import__('os').path.exists('/verif/tools/fixed_extra.json') else {})
 log = subprocess.run(["git", "-C", "/repo", "log", "--format=%h %s"], capture_output=True, text=True).stdout.splitlines()
